@@ -175,11 +175,11 @@ Proof. vm_compute. split; auto. Qed.
 Definition ex_footer : list (str * template) :=
   [(s "footer", [NLeaf (LText (s "Contact: ")); NLeaf (LVar (s "email"))])].
 Definition ex_page : template := [NLeaf (LVar (s "title")); NLeaf (LText (s " / ")); NLeaf (LInc (s "footer"))].
-Definition res_outcome (r : list (str * template) * result) : option outcome :=
+Definition res_outcome (r : hrow) : option outcome :=
   match snd r with RRender _ _ o _ => Some o | _ => None end.
 Example ex_history :
   map res_outcome
-      (run_ops (mkInstance ex_footer true 0)
+      (run_ops (mkInstance [] ex_footer true 0)
          [OpRender ex_page [(s "title", VStr (s "Report"))];
           OpRender ex_page [(s "title", VStr (s "Report")); (s "email", VStr (s "ops@example.org"))];
           OpRegister (s "footer") [NLeaf (LText (s "(c) 2026"))];
@@ -235,4 +235,40 @@ Example ex_custom_filters :
   (* the same template on the default instance: unknown filters warn and render str(value) *)
   render_impl false [] ex_payload (print [NLeaf (LPipe (s "secret") (s "wrap"))]) =
     Ok (s "S") [WUnknownFilter (s "wrap")].
+Proof. vm_compute. repeat split; reflexivity. Qed.
+
+(* several instances in one process: a filter "formal" is stored on instance 0 AFTER instance 1
+   exists, instance 2 is created later still.  On instance 0 {{tone|formal}} is from then on a
+   filtered variable (unbound: left as written; bound: the filter applied to the raw value); on
+   instances 1 and 2, which were never given that filter, "formal" stays the DEFAULT text, and a
+   bound value is emitted verbatim with the "Unknown filter" warning.  The hypotheses of
+   c12_instances_isolated / c12_fresh_instance_unaffected are met by this history. *)
+Definition ex_tone : template :=
+  [NLeaf (LText (s "Tone: ")); NLeaf (LPipe (s "tone") (s "formal")); NLeaf (LText (s "."))].
+Definition ex_bound : ctx := [(s "tone", VStr (s "{{>secret}} casual"))].
+Definition ex_process : case :=
+  [SNew [] [] false; SNew [] [] false;
+   SOn 1 (OpRender ex_tone []);
+   SOn 0 (OpSetFilter (s "formal") CWrap);
+   SOn 0 (OpRender ex_tone []); SOn 0 (OpRender ex_tone ex_bound);
+   SOn 1 (OpRender ex_tone []); SOn 1 (OpRender ex_tone ex_bound);
+   SNew [] [] false;
+   SOn 2 (OpRender ex_tone []); SOn 2 (OpRender ex_tone ex_bound)].
+Definition srow_outcome (r : srow) : nat * option outcome := (fst (fst r), res_outcome (snd r)).
+Example ex_instances :
+  map srow_outcome (run_sys [] ex_process) =
+  [(1%nat, Some (Ok (s "Tone: formal.") []));
+   (0%nat, None);
+   (0%nat, Some (Ok (s "Tone: {{tone|formal}}.") []));
+   (0%nat, Some (Ok (s "Tone: {{{{>secret}} casual}}.") []));
+   (1%nat, Some (Ok (s "Tone: formal.") []));
+   (1%nat, Some (Ok (s "Tone: {{>secret}} casual.") [WUnknownFilter (s "formal")]));
+   (2%nat, Some (Ok (s "Tone: formal.") []));
+   (2%nat, Some (Ok (s "Tone: {{>secret}} casual.") [WUnknownFilter (s "formal")]))] /\
+  (* instance 1 on its own: the same three answers *)
+  map res_outcome (rows_of 1 (run_sys [] ex_process)) =
+    map res_outcome (run_ops (mkInstance [] [] false 0) (ops_on 1 ex_process)) /\
+  List.length (ops_on 1 ex_process) = 3%nat /\
+  (* the store is not a no-op on its own instance *)
+  @is_filter (ft_set [] (s "formal") CWrap) (s "formal") = true /\ @is_filter [] (s "formal") = false.
 Proof. vm_compute. repeat split; reflexivity. Qed.
